@@ -89,9 +89,14 @@ def timedCall (T n : Int) (m : α → Bool) (arr : List (Int × α)) (H : Int) :
 
 /-- The script of external events (layer 2 of the timed model, what the
 `client4`/`client6` streams feed the real clients with) that injects the routed
-stream, every datagram applied at quiescence. -/
-def scriptOf (m : α → Bool) (arr : List (Int × α)) : List Event :=
-  arr.map (fun a => ⟨a.1, if m a.2 then .acc else .rej, true⟩)
+stream: datagram number `i` (counted from `i0`) applied at quiescence iff
+`sy i`. -/
+def scriptFrom (m : α → Bool) (sy : Nat → Bool) : Nat → List (Int × α) → List Event
+  | _, [] => []
+  | i, a :: rest => ⟨a.1, if m a.2 then .acc else .rej, sy i⟩ :: scriptFrom m sy (i + 1) rest
+
+/-- every datagram applied at quiescence -/
+def scriptOf (m : α → Bool) (arr : List (Int × α)) : List Event := scriptFrom m quiescent 0 arr
 
 /-- What the caller observes of a script of datagram injections when nothing
 races: event number `i` at its effective instant (the script clock never goes
